@@ -453,7 +453,7 @@ func (e *Encoder) flushDrawOps() {
 
 func (e *Encoder) quantize(coord float32) float32 {
 	if !e.highResolutionCoordinates && (-128 <= coord && coord < 128) {
-		x := math.Floor(float64(coord*64 + 0.5))
+		x := math.Floor(float64(coord)*64 + 0.5)
 		return float32(x) / 64
 	}
 	return coord
